@@ -3,6 +3,7 @@ package rules
 import (
 	"fmt"
 	"go/types"
+	"regexp"
 	"sort"
 	"strings"
 
@@ -374,6 +375,28 @@ func collectContributions(c *core.Ctx, rule string, fn *ssa.Function) ([]contrib
 	}
 	x.Hooks.Store = func(x *absint.Exec, s *absint.State, in *ssa.Store, addr, val absint.Value) {
 		p, ok := addr.(absint.Ptr)
+		if ok && strings.HasPrefix(p.Loc, "A:r/") {
+			// accumulation into a variable of the function itself (a sum kept in a local structure instead of an
+			// accumulator map): the first value is assigned, later ones are added
+			v := val
+			if t, isT := val.(*absint.Term); isT && t.Op == "+" && len(t.Args) == 2 {
+				if old, has := s.Heap[p.Loc]; has {
+					for i := 0; i < 2; i++ {
+						if t.Args[i].Key() == old.Key() {
+							v = t.Args[1-i]
+						}
+					}
+				}
+			}
+			if vc := cl.valueClass(v); vc == "outer.Value" || vc == "inner.Value*outer.Value" {
+				cell := p.Loc
+				if j := strings.IndexAny(cell, "[·"); j >= 0 {
+					cell = cell[:j]
+				}
+				add(s, "local:"+cell, "", vc, c.P.Pos(in.Pos()))
+			}
+			return
+		}
 		if !ok || !strings.HasPrefix(p.Loc, "L:§") || strings.Contains(p.Loc, "[") {
 			return
 		}
@@ -493,10 +516,19 @@ func ruleExpansionSites(c *core.Ctx, rule string, only func(*ssa.Function) bool)
 				bad = append(bad, "no name is ever recorded on the not-found side")
 			}
 		} else {
+			hasLocalSink := false
+			for _, ct := range cons {
+				if strings.HasPrefix(ct.sink, "local:") && ct.found != "" {
+					hasLocalSink = true
+				}
+			}
 			if len(anyC) > 0 {
 				for _, ct := range anyC {
 					if ct.sink == "print" && ct.name == "outer.Name" && (ct.value == "outer.Value" || ct.value == "") {
 						continue // the food line itself, printed before the lookup
+					}
+					if ct.sink == "print" && ct.name == "" && hasLocalSink {
+						continue // the row that shows what was summed up in a local variable
 					}
 					bad = append(bad, fmt.Sprintf("%s: contribution %s is made without consulting the recipe book", ct.pos, ct))
 				}
@@ -615,6 +647,22 @@ func switchLoc(x *absint.Exec, atom, sw string) bool {
 	return strings.HasSuffix(x.LocOf[id], "·"+sw)
 }
 
+var loadSymRe = regexp.MustCompile(`§(?:j|w)?@([0-9]+)`)
+
+// atomOnField: the atom is about the named configuration field — read from a structure held by value
+// (field(c,"Name")) or loaded through a pointer to it (a load symbol whose location ends in ·Name).
+func atomOnField(x *absint.Exec, atom, field string) bool {
+	if strings.Contains(atom, `c:"`+field+`"`) {
+		return true
+	}
+	for _, m := range loadSymRe.FindAllStringSubmatch(atom, -1) {
+		if strings.HasSuffix(x.LocOf[m[1]], "·"+field) {
+			return true
+		}
+	}
+	return false
+}
+
 // ruleReporterSelection: a function that chooses among reporter constructors
 // returns an element-filtering reporter exactly when a single element was
 // asked for — whatever the other switches say. "Element-filtering" is read off
@@ -680,9 +728,17 @@ func ruleReporterSelection(c *core.Ctx, rule string, only func(*ssa.Function) bo
 			}
 			single := ""
 			for k := range tm.State.PC {
-				if strings.HasPrefix(k, "ord(") && strings.Contains(k, `c:"SingleElement"`) && strings.Contains(k, "len(") {
+				if strings.HasPrefix(k, "ord(") && atomOnField(x, k, "SingleElement") && strings.Contains(k, "len(") {
 					if o := x.Possible(tm.State, k); len(o) > 0 {
 						single = strings.Join(o, "")
+					}
+				}
+				// the same question asked as a comparison with the empty string
+				if strings.HasPrefix(k, "ord(") && atomOnField(x, k, "SingleElement") && !strings.Contains(k, "len(") && (strings.HasPrefix(k, `ord(c:"",`) || strings.HasSuffix(k, `,c:"")`)) {
+					if o := strings.Join(x.Possible(tm.State, k), ""); o == "=" {
+						single = "="
+					} else if o != "" && !strings.Contains(o, "=") {
+						single = "<"
 					}
 				}
 			}
